@@ -700,7 +700,7 @@ func directedPrograms() []directed {
 			return ""
 		}},
 		{"concurrent-opens", func(c *c24Session, rng *rand.Rand) string {
-			const goroutines, each = 6, 6
+			const goroutines, each = 10, 8
 			stopAccept := make(chan struct{})
 			var acc sync.WaitGroup
 			acc.Add(1)
